@@ -17,6 +17,8 @@ mrows = ["| mutant | property | what it does | passes the 165 tests | result (fi
 for e in mut:
     sp = 'yes' if e.get('suite_passes') else ('**no**' if e.get('suite_passes') is False else '?')
     st = 'caught: `%s`' % clean(e.get('class') or '', 90) if e.get('detected') else ('MISSED' if e.get('detected') is False else 'not run')
+    if e['property'] == 'BENIGN':
+        st = 'all four checks silent' if e.get('detected') else ('**' + clean(e.get('class') or 'not run', 120) + '**')
     mrows.append("| `%s` | %s | %s | %s | %s |" % (e['name'], e['property'], e['description'], sp, st))
 s = open('/verif/DESIGN.md').read()
 for tag, rows in (('SEEDED-TABLE', srows), ('MUTANT-TABLE', mrows)):
